@@ -229,6 +229,16 @@ def enumerate_cells(tier, seed):
                               center=(S.sky(10.0, 20.0, 'icrs') if dom == 'sky' else S.pix(3.0, 4.0)), text='\u03b1 Cen')
                     uni.append(t)
                 emit(fmt, 'Regions', uni, kw, 'good-unicode')
+                # ... and characters that are line boundaries for str.splitlines() / universal-newline readers of other
+                # languages but ordinary characters inside a quoted DS9/CRTF string (form feed, VT, FS/GS/RS, NEL, LS, PS)
+                lc = [json.loads(json.dumps(r)) for r in regs]
+                for k, txt in enumerate(['page\x0cbreak', 'v\x0bt fs\x1cgs\x1drs\x1eend', 'nel\x85x ls\u2028y ps\u2029z']):
+                    if fmt == 'ds9':
+                        lc.append(S.reg('TextPixelRegion', center=S.pix(3.0 + k, 4.0), text=txt))
+                    else:
+                        lc.append(S.reg('TextSkyRegion' if dom == 'sky' else 'TextPixelRegion',
+                                        center=(S.sky(10.0 + k, 20.0, 'icrs') if dom == 'sky' else S.pix(3.0 + k, 4.0)), text=txt))
+                emit(fmt, 'Regions', lc, kw, 'good-linechars')
         for _ in range(1 if simple else 8):            # Region.write
             regs, kw, dom = good_list(prng, fmt, 1, simple)
             emit(fmt, 'Region', regs, kw, 'good')
